@@ -824,3 +824,249 @@ Proof.
         -- rewrite <- O. cbn [app firstn]. rewrite I1. reflexivity.
         -- rewrite !Nat2N.inj_succ. lia.
 Qed.
+
+Lemma wf_tail_okc : forall s, bytes_ok s -> wf_tail s = true -> Forall okc s.
+Proof.
+  induction s as [|c r IH]; intros Hb Hw; [constructor|].
+  inversion Hb as [|? ? Hc Hr]; subst. unfold is_byte in Hc.
+  cbn [wf_tail] in Hw. unfold pad_char in Hw. destruct (N.eqb_spec c 61) as [->|Hne].
+  - destruct r as [|d [|? ?]]; try discriminate Hw.
+    + constructor; [split; [lia | right; reflexivity] | constructor].
+    + apply N.eqb_eq in Hw. subst d.
+      constructor; [split; [lia | right; reflexivity]|].
+      constructor; [split; [lia | right; reflexivity] | constructor].
+  - apply andb_true_iff in Hw. destruct Hw as [Hv Hw].
+    constructor; [split; [exact Hc | left; exact Hv] | apply IH; assumption].
+Qed.
+
+(* the model of b64decode on an input object of exactly |s| bytes and an output object of exactly
+   (|s|/4)*3 bytes: never a Fault; rejects exactly when the spec rejects; on acceptance the
+   object has kept its size, outlen = number of decoded bytes and the first outlen bytes are the
+   decoded bytes *)
+Theorem b64decode_model_spec s out :
+  bytes_ok s -> N.of_nat (length s) < 2 ^ 64 -> length out = b64declen (length s) ->
+  match b64decode_spec s with
+  | None => b64decode_m b64chars s (length s) out = Ok None
+  | Some bs =>
+    exists out', b64decode_m b64chars s (length s) out = Ok (Some (out', N.of_nat (length bs))) /\
+                 length out' = length out /\ firstn (length bs) out' = bs /\ (length bs <= length out)%nat
+  end.
+Proof.
+  intros Hb Hn Ho. rewrite repo_b64chars_eq_rfc. fold tbl.
+  unfold b64decode_m, b64decode_spec, wf_b64b.
+  destruct (Nat.eqb_spec (length s mod 4) 0) as [Hm|Hm]; cbn [negb andb]; [|reflexivity].
+  pose proof (scan_model s [] 0 Hb) as Hs. cbn [app length] in Hs. rewrite Hs by lia. cbn [bind].
+  destruct (scan_spec s 0) as [dead|] eqn:Es.
+  2:{ destruct (wf_tail s) eqn:Ew; [|reflexivity]. apply scan_wf in Ew. destruct Ew as (k & Ek & _). congruence. }
+  destruct (N.ltb_spec 2 dead) as [Hd|Hd].
+  { destruct (wf_tail s) eqn:Ew; [|reflexivity]. apply scan_wf in Ew. destruct Ew as (k & Ek & Hk).
+    assert (k = dead) by congruence. subst k. lia. }
+  assert (wf_tail s = true) as Ew by (apply scan_wf; exists dead; auto).
+  rewrite Ew.
+  destruct (groups_spec s Hb Hm Ew dead Es) as [G1 G2].
+  set (bs := map bits_val (chunk8 (flat_map char_bits s))) in *.
+  unfold b64declen in Ho.
+  pose proof (dec_loop_ok s [] [] out (S (length s)) 0 (wf_tail_okc s Hb Ew) Hm) as L.
+  cbn [app length] in L.
+  assert (3 * (length s / 4) <= length s)%nat as H34
+    by (pose proof (Nat.div_mod (length s) 4 ltac:(lia)); lia).
+  change (2 ^ 64) with 18446744073709551616 in *.
+  rewrite L by lia.
+  cbn [bind]. exists (dec_groups s).
+  assert (length (dec_groups s) = length out) as Lo by (rewrite dec_groups_length; lia).
+  repeat split; try assumption.
+  - f_equal. f_equal. f_equal. unfold u64. change (2 ^ 64) with 18446744073709551616 in *.
+    rewrite <- G2. replace (0 + (N.of_nat (length bs) + dead) + 18446744073709551616 - dead)
+      with (N.of_nat (length bs) + 18446744073709551616) by lia.
+    replace (N.of_nat (length bs) + 18446744073709551616) with (N.of_nat (length bs) + 1 * 18446744073709551616) by lia.
+    rewrite N.mod_add by lia. apply N.mod_small. lia.
+  - rewrite <- Lo. rewrite dec_groups_length. lia.
+Qed.
+
+(* C15: for every input no Fault, writes stay inside the (inlen/4)*3 object, outlen within it *)
+Theorem b64decode_no_fault s out :
+  bytes_ok s -> N.of_nat (length s) < 2 ^ 64 -> length out = b64declen (length s) ->
+  exists r, b64decode_m b64chars s (length s) out = Ok r /\
+            match r with
+            | None => True
+            | Some (out', n) => length out' = length out /\ n <= N.of_nat (length out)
+            end.
+Proof.
+  intros Hb Hn Ho. pose proof (b64decode_model_spec s out Hb Hn Ho) as H.
+  destruct (b64decode_spec s) as [bs|].
+  - destruct H as (out' & E & L & _ & Hl). exists (Some (out', N.of_nat (length bs))). split; [exact E|].
+    split; [exact L | lia].
+  - exists None. split; [exact H | exact I].
+Qed.
+
+(* the decoder accepts exactly the well-formed strings *)
+Theorem b64decode_accepts_iff s out :
+  bytes_ok s -> N.of_nat (length s) < 2 ^ 64 -> length out = b64declen (length s) ->
+  ((exists r, b64decode_m b64chars s (length s) out = Ok (Some r)) <-> wf_b64 s).
+Proof.
+  intros Hb Hn Ho. pose proof (b64decode_model_spec s out Hb Hn Ho) as H.
+  rewrite <- wf_b64b_spec. unfold b64decode_spec in H. destruct (wf_b64b s).
+  - destruct H as (out' & E & _). split; [reflexivity | intros _; eexists; exact E].
+  - split; [intros [r E]; rewrite H in E; discriminate | discriminate].
+Qed.
+
+(* ---- decoding inverts encoding (spec level) ---- *)
+Definition b64_char_ok (d : N) : bool :=
+  match b64_index (b64_char d) with
+  | Some d' => (d' =? d) && negb (b64_char d =? 61) && negb (b64_char d =? 0) && (b64_char d <? 256)
+  | None => false
+  end.
+Lemma b64_char_sweep : forallb b64_char_ok (N_range 64) = true.
+Proof. vm_compute. reflexivity. Qed.
+Lemma b64_char_facts d : d < 64 ->
+  b64_index (b64_char d) = Some d /\ b64_char d <> 61 /\ b64_char d <> 0 /\ b64_char d < 256.
+Proof.
+  intros H. pose proof (sweep_N _ 64 b64_char_sweep d H) as S. unfold b64_char_ok in S.
+  destruct (b64_index (b64_char d)) as [d'|]; [|discriminate].
+  apply andb_true_iff in S. destruct S as [S S4]. apply andb_true_iff in S. destruct S as [S S3].
+  apply andb_true_iff in S. destruct S as [S1 S2].
+  apply N.eqb_eq in S1. subst d'. apply negb_true_iff, N.eqb_neq in S2. apply negb_true_iff, N.eqb_neq in S3.
+  apply N.ltb_lt in S4. auto.
+Qed.
+
+Lemma char_bits_b64_char d : d < 64 -> char_bits (b64_char d) = digit_bits d.
+Proof. intros H. unfold char_bits. destruct (b64_char_facts d H) as [E _]. rewrite E. reflexivity. Qed.
+
+Lemma is_b64char_b64_char d : d < 64 -> is_b64char (b64_char d) = true.
+Proof. intros H. unfold is_b64char. destruct (b64_char_facts d H) as [E _]. rewrite E. reflexivity. Qed.
+
+Lemma wf_tail_cons_char d r : d < 64 -> wf_tail (b64_char d :: r) = wf_tail r.
+Proof.
+  intros H. cbn [wf_tail]. destruct (b64_char_facts d H) as (_ & Hne & _).
+  unfold pad_char. destruct (N.eqb_spec (b64_char d) 61); [contradiction|].
+  rewrite is_b64char_b64_char by exact H. reflexivity.
+Qed.
+
+Lemma bits6_lt x0 x1 x2 x3 x4 x5 : bits_val [x0; x1; x2; x3; x4; x5] < 64.
+Proof. apply (bits_val_bound [x0; x1; x2; x3; x4; x5]). Qed.
+
+(* what the characters of one encoded group contribute to the decoder's bit string *)
+Lemma char_bits_sextet x0 x1 x2 x3 x4 x5 :
+  char_bits (b64_char (bits_val [x0; x1; x2; x3; x4; x5])) = [x0; x1; x2; x3; x4; x5].
+Proof. rewrite char_bits_b64_char by apply bits6_lt. apply digit_bits_val. Qed.
+
+(* the properties of an encoding, group by group *)
+Record enc_facts (bs : list N) : Prop := {
+  ef_wf : wf_tail (b64_spec bs) = true;
+  ef_len : length (b64_spec bs) = b64len (length bs);
+  ef_dec : map bits_val (chunk8 (flat_map char_bits (b64_spec bs))) = bs;
+  ef_bytes : bytes_ok (b64_spec bs);
+  ef_nonul : no_nul (b64_spec bs)
+}.
+
+Lemma byte3_value a b c : a < 256 -> b < 256 -> c < 256 ->
+  bits_val (byte_bits a ++ byte_bits b ++ byte_bits c) = a * 65536 + b * 256 + c.
+Proof.
+  intros Ha Hb Hc. rewrite !bits_val_app, !bits_val_byte by assumption.
+  rewrite app_length. change (length (byte_bits b)) with 8%nat. change (length (byte_bits c)) with 8%nat.
+  change (2 ^ N.of_nat (8 + 8)) with 65536. change (2 ^ N.of_nat 8) with 256. lia.
+Qed.
+
+Lemma enc_facts_all : forall bs, bytes_ok bs -> enc_facts bs.
+Proof.
+  intros bs. induction bs as [|a|a b|a b c r IH] using list_ind3; intros Hb.
+  - constructor; try reflexivity; constructor.
+  - inversion Hb as [|? ? Ha _]; subst. unfold is_byte in Ha.
+    pose proof (byte3_value a 0 0 Ha ltac:(lia) ltac:(lia)) as V.
+    replace (a * 65536 + 0 * 256 + 0) with (a * 65536) in V by lia.
+    pose proof (bits_val_byte a Ha) as Va.
+    destruct (byte_bits_shape a) as (a7 & a6 & a5 & a4 & a3 & a2 & a1 & a0 & Ea).
+    rewrite Ea in *. change (byte_bits 0) with (repeat false 8) in V. cbn [app repeat] in V.
+    pose proof (b64_spec_1 a Ha) as E. rewrite <- V in E. rewrite <- sextets24 in E. cbn [firstn map app] in E.
+    pose proof (bits6_lt a7 a6 a5 a4 a3 a2) as L0. pose proof (bits6_lt a1 a0 false false false false) as L1.
+    destruct (b64_char_facts _ L0) as (_ & P0 & Z0 & B0). destruct (b64_char_facts _ L1) as (_ & P1 & Z1 & B1).
+    constructor; rewrite E.
+    + rewrite !wf_tail_cons_char by assumption. reflexivity.
+    + reflexivity.
+    + cbn [flat_map]. unfold pad_char. rewrite !char_bits_sextet, !char_bits_pad. cbn [app chunk8 map]. rewrite Va. reflexivity.
+    + repeat constructor; unfold is_byte, pad_char; try assumption; lia.
+    + repeat constructor; unfold pad_char; try assumption; lia.
+  - inversion Hb as [|? ? Ha Hb']; subst. inversion Hb' as [|? ? Hb2 _]; subst. unfold is_byte in Ha, Hb2.
+    pose proof (byte3_value a b 0 Ha Hb2 ltac:(lia)) as V.
+    replace (a * 65536 + b * 256 + 0) with (a * 65536 + b * 256) in V by lia.
+    pose proof (bits_val_byte a Ha) as Va. pose proof (bits_val_byte b Hb2) as Vb.
+    destruct (byte_bits_shape a) as (a7 & a6 & a5 & a4 & a3 & a2 & a1 & a0 & Ea).
+    destruct (byte_bits_shape b) as (b7 & b6 & b5 & b4 & b3 & b2 & b1 & b0 & Eb).
+    rewrite Ea, Eb in *. change (byte_bits 0) with (repeat false 8) in V. cbn [app repeat] in V.
+    pose proof (b64_spec_2 a b Ha Hb2) as E. rewrite <- V in E. rewrite <- sextets24 in E. cbn [firstn map app] in E.
+    pose proof (bits6_lt a7 a6 a5 a4 a3 a2) as L0. pose proof (bits6_lt a1 a0 b7 b6 b5 b4) as L1.
+    pose proof (bits6_lt b3 b2 b1 b0 false false) as L2.
+    destruct (b64_char_facts _ L0) as (_ & P0 & Z0 & B0). destruct (b64_char_facts _ L1) as (_ & P1 & Z1 & B1).
+    destruct (b64_char_facts _ L2) as (_ & P2 & Z2 & B2).
+    constructor; rewrite E.
+    + rewrite !wf_tail_cons_char by assumption. reflexivity.
+    + reflexivity.
+    + cbn [flat_map]. unfold pad_char. rewrite !char_bits_sextet, !char_bits_pad. cbn [app chunk8 map]. rewrite Va, Vb. reflexivity.
+    + repeat constructor; unfold is_byte, pad_char; try assumption; lia.
+    + repeat constructor; unfold pad_char; try assumption; lia.
+  - inversion Hb as [|? ? Ha Hb1]; subst. inversion Hb1 as [|? ? Hb2 Hb3]; subst.
+    inversion Hb3 as [|? ? Hc Hr]; subst. unfold is_byte in Ha, Hb2, Hc.
+    destruct (IH Hr) as [I1 I2 I3 I4 I5].
+    pose proof (byte3_value a b c Ha Hb2 Hc) as V.
+    pose proof (bits_val_byte a Ha) as Va. pose proof (bits_val_byte b Hb2) as Vb.
+    pose proof (bits_val_byte c Hc) as Vc.
+    destruct (byte_bits_shape a) as (a7 & a6 & a5 & a4 & a3 & a2 & a1 & a0 & Ea).
+    destruct (byte_bits_shape b) as (b7 & b6 & b5 & b4 & b3 & b2 & b1 & b0 & Eb).
+    destruct (byte_bits_shape c) as (c7 & c6 & c5 & c4 & c3 & c2 & c1 & c0 & Ec).
+    rewrite Ea, Eb, Ec in *. cbn [app] in V.
+    pose proof (b64_spec_group a b c r Ha Hb2 Hc) as E. rewrite <- V in E. rewrite <- sextets24 in E.
+    cbn [map app] in E.
+    pose proof (bits6_lt a7 a6 a5 a4 a3 a2) as L0. pose proof (bits6_lt a1 a0 b7 b6 b5 b4) as L1.
+    pose proof (bits6_lt b3 b2 b1 b0 c7 c6) as L2. pose proof (bits6_lt c5 c4 c3 c2 c1 c0) as L3.
+    destruct (b64_char_facts _ L0) as (_ & P0 & Z0 & B0). destruct (b64_char_facts _ L1) as (_ & P1 & Z1 & B1).
+    destruct (b64_char_facts _ L2) as (_ & P2 & Z2 & B2). destruct (b64_char_facts _ L3) as (_ & P3 & Z3 & B3).
+    constructor; rewrite E.
+    + rewrite !wf_tail_cons_char by assumption. exact I1.
+    + cbn [length]. rewrite I2, b64len_3. lia.
+    + cbn [flat_map]. rewrite !char_bits_sextet. cbn [app chunk8 map]. rewrite Va, Vb, Vc, I3. reflexivity.
+    + repeat (constructor; [assumption|]). exact I4.
+    + repeat (constructor; [assumption|]). exact I5.
+Qed.
+
+Theorem b64decode_spec_encode bs : bytes_ok bs -> b64decode_spec (b64_spec bs) = Some bs.
+Proof.
+  intros Hb. destruct (enc_facts_all bs Hb) as [I1 I2 I3 _ _].
+  unfold b64decode_spec, wf_b64b. rewrite I1, I2, I3.
+  replace (b64len (length bs) mod 4)%nat with 0%nat; [reflexivity|].
+  unfold b64len. symmetry. apply Nat.mod_mul. lia.
+Qed.
+
+(* M1: encode with the model, hand the string (without its NUL) to the model of the decoder:
+   the original bytes come back *)
+Theorem b64decode_encode bs out1 out2 :
+  bytes_ok bs -> N.of_nat (b64len (length bs)) < 2 ^ 64 ->
+  length out1 = S (b64len (length bs)) -> length out2 = b64declen (b64len (length bs)) ->
+  exists enc out',
+    b64encode_m b64chars bs out1 (length bs) = Ok (enc ++ [0]) /\ no_nul enc /\
+    b64decode_m b64chars enc (length enc) out2 = Ok (Some (out', N.of_nat (length bs))) /\
+    firstn (length bs) out' = bs.
+Proof.
+  intros Hb Hn H1 H2. destruct (enc_facts_all bs Hb) as [I1 I2 I3 I4 I5].
+  exists (b64_spec bs). rewrite b64encode_eq_rfc4648 by assumption.
+  pose proof (b64decode_model_spec (b64_spec bs) out2 I4) as D. rewrite I2 in D.
+  specialize (D Hn H2). rewrite b64decode_spec_encode in D by exact Hb.
+  destruct D as (out' & E & _ & F & _). exists out'. rewrite I2. auto.
+Qed.
+
+(* non-vacuity *)
+Example b64_example_foob :
+  b64encode_m b64chars [102; 111; 111; 98] (repeat 170 9) 4 = Ok [90; 109; 57; 118; 89; 103; 61; 61; 0] /\
+  b64decode_m b64chars [90; 109; 57; 118; 89; 103; 61; 61] 8 (repeat 170 6) = Ok (Some ([102; 111; 111; 98; 0; 0], 4)).
+Proof. split; vm_compute; reflexivity. Qed.
+Example b64_example_trailing_bits :   (* "QR==" decodes to "A"; the trailing bits of 'R' are dropped *)
+  b64decode_spec [81; 82; 61; 61] = Some [65] /\ wf_b64 [81; 82; 61; 61].
+Proof. split; [vm_compute; reflexivity | apply wf_b64b_spec; vm_compute; reflexivity]. Qed.
+Example b64_example_rejects :
+  b64decode_m b64chars [65; 61; 61; 61] 4 (repeat 170 3) = Ok None /\
+  b64decode_m b64chars [65; 65; 61; 65] 4 (repeat 170 3) = Ok None /\
+  b64decode_m b64chars [65; 65; 65] 3 [] = Ok None /\
+  b64decode_m b64chars [65; 65; 65; 0] 4 (repeat 170 3) = Ok None.
+Proof. repeat split; vm_compute; reflexivity. Qed.
+Example b64_example_rfc_vector :       (* RFC 4648 section 10: BASE64("foobar") = "Zm9vYmFy" *)
+  b64_spec [102; 111; 111; 98; 97; 114] = [90; 109; 57; 118; 89; 109; 70; 121].
+Proof. vm_compute. reflexivity. Qed.
